@@ -9,7 +9,7 @@ package dht
 //verif:bound one step (VerifC34Step): bucket 24 with exactly k entries and 0..r replacements: (k,r) = (0..3, 2), (8, 1) and (15..16, 1) in quick; thorough adds (4..14, 1), (2, 3), one further entry in bucket 23; the operation is add, stuff (list of 1..2 nodes for k <= 3, one node otherwise), delete, deleteReplace or bump with an arbitrary node: any id (two arbitrary id bytes: equal to an entry, to a replacement, to both, or fresh), hashing into the same bucket, into bucket 23, or the local node itself
 //verif:bound histories (VerifC34History): empty table, add x16 (bucket full), add of a 17th node, then every sequence of 3 operations from {add, stuff, delete, deleteReplace} x {17th node, first filler, last filler}
 //verif:assume the node hash (SHA-256 of the id, cached in Node.sha) is an injective function of the id: the harness builds ids whose bytes 0,1 are arbitrary and byte 2 selects the bucket, and sets sha = (0.., id[2], id[0], id[1]); local node id and hash are all-zero; two Node objects with the same id therefore carry the same hash
-//verif:assume pre-state of VerifC34Step: entries have pairwise distinct ids (entry i has id byte 0 = i+1, byte 1 arbitrary), replacements have pairwise distinct ids, both may overlap. Every such state is reachable: add the non-overlapping entries and fillers up to 16, add the replacement nodes (bucket full, so they go to the replacement list), delete the fillers, add the overlapping nodes again (not among the entries, space available: addFront without removal from the replacement list); any entry order is reachable by bumping
+//verif:assume pre-state of VerifC34Step: entries have pairwise distinct ids (entry i has id byte 0 = i+1, byte 1 arbitrary), replacements have pairwise distinct ids, and no id is in both lists (every operation keeps them disjoint since the fix of KF-C34-REPLACEMENT-OVERLAP; histories that would create an overlap are covered by VerifC34History from real operations only). Every such state is reachable: add the entries and fillers up to 16, add the replacement nodes (bucket full, so they go to the replacement list), delete the fillers; any entry order is reachable by bumping
 //verif:outside closest / nodesByDistance.push, readRandomNodes, chooseBucketRefreshTarget (not part of the invariant), more than two buckets, the Network state machine that calls these operations
 //verif:assume package initialisation: the two var initialisers of udp.go that size packets through go-wire's reflection encoder and the regexp compilation in node.go are cut for the solver (wire.WriteJSON and regexp.MustCompile stubs); none of them is read by the table code
 //verif:override github.com/tendermint/go-wire.WriteJSON -> verifC34WriteJSON
@@ -113,9 +113,11 @@ func VerifC34Step(k int, maxRepl int, twoStuff int) {
 	}
 	overlap := verifC34Overlap(b)
 	verifObserveBool("overlap", overlap)
-	// an id sitting among the entries and in the replacement list is
-	// re-inserted by deleteReplace
-	verifKnown("KF-C34-REPLACEMENT-OVERLAP", overlap)
+	// since the fix recorded as KF-C34-REPLACEMENT-OVERLAP no operation leaves an id both
+	// among the entries and in the replacement list (add/stuff take it out of the list,
+	// deleteReplace moves it): disjointness is part of the reachable-state invariant. A
+	// regression of that fix is caught by VerifC34History, which only uses real operations.
+	verifAssume(!overlap)
 
 	n, _ := verifC34Arg(tab, "n")
 	switch verifChoice("op", 5) {
